@@ -38,17 +38,18 @@ EVIL = 'https://evil.example/endpoint'
 _RCV = {}
 
 
-def receiver(rtype, endpoint, want, issuer_key='known'):
-    key = (rtype, endpoint, want, issuer_key)
+def receiver(rtype, endpoint, want, issuer_key='known', cert_only=False):
+    key = (rtype, endpoint, want, issuer_key, cert_only)
     if key in _RCV:
         return _RCV[key]
     only = endpoint == 'otherBindingOnly'
     nokey = issuer_key == 'nokey'
     spmd = [env.sp_metadata(keys=())] if nokey else None
+    extra = {'want_authn_requests_only_with_valid_cert': True} if cert_only else {}
     if rtype in ('authn', 'logout_idp'):
         eps = {'single_sign_on_service': [(IDP_SSO['redirect'], B['redirect'])] + ([] if only else [(IDP_SSO['post'], B['post'])]),
                'single_logout_service': [(IDP_SLO['redirect'], B['redirect'])] + ([] if only else [(IDP_SLO['post'], B['post']), (IDP_SLO['soap'], B['soap'])])}
-        r = env.make_idp(env.idp_config(metadata_xml=spmd, endpoints=eps, want_authn_requests_signed=want))
+        r = env.make_idp(env.idp_config(metadata_xml=spmd, endpoints=eps, want_authn_requests_signed=want, **extra))
     elif rtype in QUERIES:
         eps = {'single_sign_on_service': [(IDP_SSO['redirect'], B['redirect'])]}
         for _, service, url, _, _, _ in QUERIES.values():
@@ -56,7 +57,7 @@ def receiver(rtype, endpoint, want, issuer_key='known'):
         r = env.make_idp(env.idp_config(metadata_xml=spmd, endpoints=eps, want_authn_requests_signed=want))
     elif rtype == 'attrquery':
         # an entity that is IdP and attribute authority; the option is read from the IdP part
-        conf = env.idp_config(metadata_xml=spmd, want_authn_requests_signed=want)
+        conf = env.idp_config(metadata_xml=spmd, want_authn_requests_signed=want, **extra)
         conf['service']['aa'] = {'endpoints': {'attribute_service': [(AA_ATTR, B['soap'])]},
                                  'policy': conf['service']['idp']['policy']}
         r = env.make_idp(conf)
@@ -159,7 +160,7 @@ def build(scn):
 
 def replay(case):
     scn = case['scn']
-    rcv = receiver(scn['rtype'], scn['endpoint'], scn['want'], scn.get('issuerKey', 'known'))
+    rcv = receiver(scn['rtype'], scn['endpoint'], scn['want'], scn.get('issuerKey', 'known'), scn.get('certOnly', False))
     doc, enc = build(scn)
     obs = {'doc': doc, 'exc': None}
     try:
@@ -217,7 +218,7 @@ def main():
         raise fw.Machinery('no request was handed over: templates broken')
     chk.cov['exhaustive'] = True
     chk.cov['rule'] = ('all scenarios of IdPRequest.tla: request type (AuthnRequest, LogoutRequest to IdP and to SP, AttributeQuery, AuthnQuery, AuthzDecisionQuery, AssertionIDRequest, NameIDMappingRequest, ManageNameIDRequest) x '
-                      'binding x signature (none, valid, invalid, wrapped) x want_authn_requests_signed x twelve mutations x endpoint '
+                      'binding x signature (none, valid, invalid, wrapped) x want_authn_requests_signed x want_authn_requests_only_with_valid_cert x twelve mutations x endpoint '
                       'configured for the arrival binding or not')
     chk.assumptions = list(fw.TOOL_ASSUMPTIONS)
     # the receiver over time: SPHistory.tla with the IdP as receiver of signed requests
